@@ -61,9 +61,9 @@ def solve(device, p=0, s0=None, solver_options={}, prox=None, cb=None):
   if (device.bounds[:, 0] == device.bounds[:, 1]).all():
     s = np.array(device.lbounds, dtype=float)
     for c in device.constraints:
-      v = np.array(c['fun'](s)).sum()
-      if (c['type'] == 'eq' and abs(v) > 1e-6) or (c['type'] != 'eq' and v < -1e-6):
-        raise OptimizationException('The only flow within bounds violates a constraint (%s, %f)' % (c['type'], v))
+      v = np.atleast_1d(c['fun'](s))
+      if (c['type'] == 'eq' and (np.abs(v) > 1e-6).any()) or (c['type'] != 'eq' and (v < -1e-6).any()):
+        raise OptimizationException('The only flow within bounds violates a constraint (%s, %s)' % (c['type'], v))
     return (s.reshape(device.shape), None)
 
   # Find a (assumed) feasible starting point
